@@ -77,9 +77,12 @@ __CPROVER_requires (gh_tok_live == 0 && gh_parse_live == 0)
 __CPROVER_requires (all_collisions >= 0 && all_searches >= 0)     /* A-STAT */
 __CPROVER_requires (gh_early == (alloc == NULL && free != NULL))
 __CPROVER_assigns (!gh_early: grammar, symbs_ptr, term_sets_ptr, rules_ptr, read_token, syntax_error, parse_alloc, parse_free, *root, *ambiguous_p,
-                   pl, pl_curr, tok_curr, toks_len, toks, toks_vlo, n_goto_successes, all_collisions, all_searches, gh_tok_live, gh_parse_live, gh_err_code)
-/* NULL allocator with non-NULL free: YAEP_NO_MEMORY before touching anything (the frame above is empty in that case) */
+                   pl, pl_curr, tok_curr, toks_len, toks, toks_vlo, n_goto_successes, all_collisions, all_searches, gh_tok_live, gh_parse_live, gh_err_code;
+                   gh_early: g->error_code, __CPROVER_object_upto (g->error_message, sizeof (g->error_message)))
+/* NULL allocator with non-NULL free: YAEP_NO_MEMORY, recorded in the object like every other failing call (C15: yaep_error_code equals the code
+   returned by the most recent failing call, with a non-empty message); nothing else is touched (the first frame is empty in that case) */
 __CPROVER_ensures (gh_early ==> __CPROVER_return_value == YAEP_NO_MEMORY)
+__CPROVER_ensures (gh_early ==> (g->error_code == YAEP_NO_MEMORY && g->error_message[0] != 0))
 /* otherwise a normal return is a success ... */
 __CPROVER_ensures (!gh_early ==> __CPROVER_return_value == 0)
 /* ... the object of this call is the current one, its callbacks are installed (defaults when alloc is NULL) ... */
